@@ -139,6 +139,29 @@ impl PacketBuilder {
         self.raw_buf_offset = 0;
     }
 
+    /// Canonical one-line digest of the builder state (verification hook, read-only).
+    #[cfg(feature = "verif-hooks")]
+    pub fn verif_state(&self) -> alloc::string::String {
+        use core::fmt::Write;
+        let mut s = alloc::string::String::new();
+        let st = match self.state {
+            ReadState::FixedHeader => "F",
+            ReadState::RemainingLength => "L",
+            ReadState::Payload => "P",
+        };
+        let _ = write!(s, "{st}/");
+        for b in &self.header_buf {
+            let _ = write!(s, "{b:02x}");
+        }
+        let _ = write!(s, "/{}/{}/", self.remaining_length, self.multiplier);
+        if let Some(buf) = &self.raw_buf {
+            for b in &buf[..self.raw_buf_offset] {
+                let _ = write!(s, "{b:02x}");
+            }
+        }
+        s
+    }
+
     /// Get packet type (first byte of fixed header)
     fn get_packet_type(&self) -> u8 {
         if !self.header_buf.is_empty() {
